@@ -10,6 +10,7 @@ mod obs;
 mod ops;
 mod schema_ops;
 mod samename;
+mod recursive;
 mod script;
 
 use gen::Gen;
@@ -77,6 +78,18 @@ fn main() {
             (e.run)(prop, &mut ge, &budget, &mut out);
         }
     }
+    // recursive user types (described as `mu` terms, unfolded by the driver): every codec property
+    // but C07, whose statement excludes them; the branching one stays away from mutated input
+    if ["C01", "C02", "C03", "C04", "C05", "C16", "C11", "C12"].contains(&prop) {
+        for (e, linear) in &recursive::recursive_catalogue() {
+            if *linear || ["C01", "C02", "C03", "C05", "C12"].contains(&prop) {
+                for _ in 0..3 {
+                    let mut ge = g.fork();
+                    (e.run)(prop, &mut ge, &budget, &mut out);
+                }
+            }
+        }
+    }
     if ["C01", "C04", "C05", "C07", "C16"].contains(&prop) {
         // element types of several KiB (the capacity hint divides 4096 by the element size)
         gen::SMALL_ONLY.store(true, std::sync::atomic::Ordering::Relaxed);
@@ -88,7 +101,8 @@ fn main() {
         gen::SMALL_ONLY.store(false, std::sync::atomic::Ordering::Relaxed);
     }
     if ["C08", "C09", "C10", "C17"].contains(&prop) {
-        for (_, run) in catalogue::schema_catalogue().into_iter().chain(generated::derived_schema_catalogue()) {
+        for (_, run) in catalogue::schema_catalogue().into_iter().chain(generated::derived_schema_catalogue())
+            .chain(recursive::recursive_schema_catalogue()) {
             let mut ge = g.fork();
             run(&mut ge, &budget, &mut out);
         }
